@@ -14,10 +14,13 @@ of records that fail to load as an input (`Op.reopen resume bad`: damaged info b
 wrong length, an info-hash that is not 20 bytes long, more pieces than `MaxPieces`, no storage).
 
 Hypothesis `tameRun`: the history is *tame* (`Registry.tame`, decidable, evaluated by the driver on
-every generated case): a record that failed to load does not load at a later restart, and no add uses
-an explicit id that is listed as invalid.  Outside these histories the code breaks the property
-(findings F07, F08: `reload_shares_port_counterexample`, `invalid_id_reuse_counterexample`).  A history
-in which no record ever fails to load is tame (`tame_of_no_dead`).
+every generated case): a record that failed to load does not load at a later restart (outside, the code
+breaks the property: finding F07, `reload_shares_port_counterexample`), and `CleanDatabase` does not run
+between the `resumer.Write` and the `insertTorrent` of an add whose id is listed invalid (like
+Close/reopen it is assumed not to run concurrently with an add; `clean_during_add_counterexample`).
+An add under an explicit id that is listed as invalid is part of the tame histories since the repair of
+finding F08 (`invalid_id_reuse_is_safe`; pre-fix behaviour: `invalid_id_reuse_unfixed_counterexample`).
+A history in which no record ever fails to load is tame (`tame_of_no_dead`).
 -/
 namespace Rain.Props.C14
 open Rain.Registry
@@ -73,19 +76,24 @@ theorem ids_unique (lo hi : Nat) (ops : List Op) (ht : tameRun (init lo hi) ops 
 
 /-- **registry_eq_db** (all schedules): the ids of the sub-buckets of the torrents bucket (`bucket =
 db ++ dead`) are exactly the ids of the registered torrents, plus those of adds that have written their
-record but are not inserted yet, plus the ids listed in `invalidTorrentIDs` (records that were read at
-the last start and did not load), each once; an invalid id is never the id of a registered torrent or
-of an add in flight; and every registered torrent has a record that describes it. -/
+record but are not inserted yet, plus the ids of the records that were read at the last start and did
+not load, each once; every record that did not load is listed in `invalidTorrentIDs`; every id listed
+there still has its dead record or is the id of an add in flight that has just written a new record
+under it (with no add in flight: `invalidTorrentIDs` = the records that did not load); an invalid id
+is never the id of a registered torrent; and every registered torrent has a record that describes it. -/
 theorem registry_eq_db (lo hi : Nat) (ops : List Op) (ht : tameRun (init lo hi) ops = true) :
     let s := run (init lo hi) ops
-    (s.bucket.map (·.1)).Perm (s.regIds ++ ((s.pending.filter (fun q => q.stage == .written)).map (·.id)) ++ s.invalid) ∧
+    (s.bucket.map (·.1)).Perm (s.regIds ++ ((s.pending.filter (fun q => q.stage == .written)).map (·.id)) ++ s.deadIds) ∧
     (s.bucket.map (·.1)).Nodup ∧
-    (∀ id ∈ s.invalid, id ∉ s.regIds ∧ id ∉ s.pendIds) ∧
+    (∀ id ∈ s.deadIds, id ∈ s.invalid) ∧
+    (∀ id ∈ s.invalid, id ∈ s.deadIds ∨ ∃ q ∈ s.pending, q.id = id ∧ q.stage = .written) ∧
+    (s.pending = [] → s.invalid.Perm s.deadIds) ∧
+    (∀ id ∈ s.invalid, id ∉ s.regIds) ∧
     ∀ t ∈ s.reg, ∃ r, dbGet s.bucket t.id = some r ∧ describes r t.f = true := by
   intro s
   obtain ⟨h, hd⟩ := good_run ops (init_good lo hi) ht
-  refine ⟨?_, bucket_nodup h hd, hd.fresh, ?_⟩
-  · rw [State.bucket, List.map_append, hd.inv]
+  refine ⟨?_, bucket_nodup h hd, hd.deadInv, hd.invSrc, hd.invalid_perm, hd.fresh, ?_⟩
+  · rw [State.bucket, List.map_append]
     exact List.Perm.append h.dbIds_perm (List.Perm.refl _)
   · intro t ht
     obtain ⟨r, hr, hdesc⟩ := h.synced t ht
@@ -114,16 +122,46 @@ theorem restart_equiv (lo hi : Nat) (ops : List Op) (resume : Bool) (bad : List 
   simp only [tameRun, tame, Bool.and_true, List.all_eq_true] at ht2
   simpa using ht2 e he
 
-/-- **failed_load_then_clean**: after any tame history, `CleanDatabase` succeeds, removes exactly
-the records that did not load, empties the invalid list and changes nothing else — afterwards the
-database holds exactly the registered torrents and the adds that have written. -/
-theorem failed_load_then_clean (lo hi : Nat) (ops : List Op) (ht : tameRun (init lo hi) ops = true) :
+/-- **failed_load_then_clean**: after any tame history, `CleanDatabase` (itself tame: no add under an
+invalid id between its write and its insert) succeeds, removes exactly the records that did not load,
+empties the invalid list and changes nothing else — afterwards the database holds exactly the
+registered torrents and the adds that have written. -/
+theorem failed_load_then_clean (lo hi : Nat) (ops : List Op) (ht : tameRun (init lo hi) (ops ++ [.clean]) = true) :
     let s := run (init lo hi) ops
     (clean s).2 = true ∧ (clean s).1.dead = [] ∧ (clean s).1.invalid = [] ∧ (clean s).1.db = s.db ∧
     (clean s).1.free = s.free ∧ (clean s).1.reg = s.reg ∧ (clean s).1.idx = s.idx ∧ (clean s).1.pending = s.pending := by
   intro s
-  obtain ⟨h, hd⟩ := good_run ops (init_good lo hi) ht
-  exact clean_spec h hd
+  obtain ⟨ht1, ht2⟩ := tameRun_append ht
+  obtain ⟨h, hd⟩ := good_run ops (init_good lo hi) ht1
+  simp only [tameRun, Bool.and_true] at ht2
+  exact clean_spec h hd (tame_clean ht2)
+
+/-- **invalid_id_reuse_is_safe** (finding F08, fixed).  After any tame sequential history, an add —
+in particular one under an explicit id that is listed in `invalidTorrentIDs` because its old record did
+not load — followed by `CleanDatabase`: no registered torrent has an invalid id after the add (the
+insert took it off the list), `CleanDatabase` succeeds and leaves registry and the records of the
+registered torrents alone, the registry is exactly the database, and the stats writer does not hit a
+missing bucket. -/
+theorem invalid_id_reuse_is_safe (lo hi : Nat) (ops : List Op) (m : Meta) (o : Opts) (p : Nat) (gen : String) (e : Env)
+    (ht : tameRun (init lo hi) (ops ++ [.add m o p gen e]) = true) (hs : ∀ op ∈ ops, op.sequential = true) :
+    let s1 := run (init lo hi) (ops ++ [.add m o p gen e])
+    (∀ id ∈ s1.regIds, id ∉ s1.invalid) ∧
+    (clean s1).2 = true ∧ (clean s1).1.db = s1.db ∧ (clean s1).1.reg = s1.reg ∧ (clean s1).1.invalid = [] ∧
+    registryEqDb (observe (clean s1).1) = true ∧ updateStatsPanics (clean s1).1 = false := by
+  intro s1
+  obtain ⟨h, hd⟩ := good_run _ (init_good lo hi) ht
+  have hseq : ∀ op ∈ ops ++ [Op.add m o p gen e], op.sequential = true := by
+    intro op hop
+    rcases List.mem_append.1 hop with h1 | h1
+    · exact hs op h1
+    · simp only [List.mem_singleton] at h1; subst h1; rfl
+  have hp : s1.pending = [] := run_pending_nil _ rfl hseq
+  have htc : tame s1 .clean = true := by simp [tame, hp]
+  have hg2 : Good (step s1 .clean) := good_step ⟨h, hd⟩ htc
+  obtain ⟨c1, _, c3, c4, _, c6, _, c8⟩ := clean_spec h hd (tame_clean htc)
+  refine ⟨fun id hid hc => hd.fresh id hc hid, c1, c4, c6, c3, ?_, ?_⟩
+  · exact registryEqDb_of_inv hg2.1 hg2.2 (by rw [c8]; exact hp)
+  · exact updateStats_no_panic hg2.1
 
 /-- **compact_equiv**: after any history `CompactDatabase` succeeds, and the database it writes holds
 exactly the torrents that have metadata, each record equal to the torrent's current record with the
@@ -210,18 +248,31 @@ theorem reload_shares_port_counterexample :
     (run (init 10 12) ops).reg.map (fun t => (t.id, t.f.port)) = [("x", 10), ("y", 10)] ∧
     portConservation (observe (run (init 10 12) ops)) = false := by decide
 
-/-- **finding F08 (known): an explicit id that is listed as invalid.**  The record of `x` does not
-load; a new torrent is added with the explicit id `x` (the duplicate check looks at the registry
-only): `resumer.Write` replaces the record, but `x` stays in `invalidTorrentIDs`, and `CleanDatabase`
-deletes the record of the live torrent: the registry is no longer the database, and the next
-`updateStats` dereferences a nil bucket. -/
-theorem invalid_id_reuse_counterexample :
+/-- Non-vacuity of `invalid_id_reuse_is_safe` (the history of finding F08 on the repaired machine): the
+record of `x` does not load, `x` is used again as an explicit id, `CleanDatabase`: the history is tame,
+`x` is live with its new record, the invalid list is empty, nothing panics. -/
+private def reuse : List Op :=
+  [ .add mA ⟨some "x", true, false, false, false⟩ 10 "" {}, .reopen true ["x"],
+    .add mB ⟨some "x", true, false, false, false⟩ 10 "" {}, .clean ]
+example : tameRun (init 10 12) reuse = true ∧ (run (init 10 12) (reuse.take 2)).invalid = ["x"] ∧
+    (run (init 10 12) (reuse.take 3)).invalid = [] ∧
+    (run (init 10 12) reuse).regIds = ["x"] ∧ (run (init 10 12) reuse).bucket.map (·.1) = ["x"] ∧
+    (run (init 10 12) reuse).bucket.map (·.2.infoHash) = ["h2"] ∧
+    registryEqDb (observe (run (init 10 12) reuse)) = true ∧
+    updateStatsPanics (run (init 10 12) reuse) = false := by decide
+
+/-- **`CleanDatabase` between the write and the insert of an add under an invalid id** (not tame; a
+narrow race that remains after the repair of F08, `CleanDatabase` is not meant to run concurrently with
+an add): the freshly written record is deleted, the torrent is then registered without a record. -/
+theorem clean_during_add_counterexample :
+    let o : Opts := ⟨some "x", true, false, false, false⟩
+    let q : Pending := ⟨"x", 10, mB, o, .reserved⟩
     let ops : List Op :=
-      [ .add mA ⟨some "x", true, false, false, false⟩ 10 "" {}, .reopen true ["x"],
-        .add mB ⟨some "x", true, false, false, false⟩ 10 "" {}, .clean ]
-    tameRun (init 10 12) ops = false ∧
+      [ .add mA o 10 "" {}, .reopen true ["x"],
+        .abegin mB o 10 "" false, .abuild q true, .awrite { q with stage := .built } true,
+        .clean, .ainsert { q with stage := .written } ]
+    tameRun (init 10 12) ops = false ∧ tameRun (init 10 12) (ops.take 5) = true ∧
     (run (init 10 12) ops).regIds = ["x"] ∧ (run (init 10 12) ops).bucket = [] ∧
-    registryEqDb (observe (run (init 10 12) ops)) = false ∧
     updateStatsPanics (run (init 10 12) ops) = true := by decide
 
 /-! ### The pre-fix behaviour, kept as checked counterexamples -/
@@ -253,6 +304,19 @@ torrent's record. -/
 theorem compact_unfixed_counterexample :
     let s := run (init 10 12) [.add mA ⟨some "x", false, false, false, false⟩ 10 "" {}]
     (s.reg.map fun t => compactRecUnfixed false t) ≠ s.db.map (·.2) := by decide
+
+/-- **finding F08 (fixed): an explicit id that is listed as invalid, before the repair.**  With the
+historical `insertTorrent` (`addInsertUnfixed`: the id stays in `invalidTorrentIDs`) the record of `x`
+does not load, a new torrent is added under `x`, and `CleanDatabase` deletes the record of the live
+torrent: the registry is no longer the database and the next `updateStats` dereferences a nil bucket. -/
+theorem invalid_id_reuse_unfixed_counterexample :
+    let o : Opts := ⟨some "x", true, false, false, false⟩
+    let q : Pending := ⟨"x", 10, mB, o, .reserved⟩
+    let s3 := run (init 10 12)
+      [ .add mA o 10 "" {}, .reopen true ["x"],
+        .abegin mB o 10 "" false, .abuild q true, .awrite { q with stage := .built } true ]
+    let s5 := (clean (addInsertUnfixed s3 { q with stage := .written }).1).1
+    s5.regIds = ["x"] ∧ s5.bucket = [] ∧ registryEqDb (observe s5) = false ∧ updateStatsPanics s5 = true := by decide
 
 /-! ### Resume record codec -/
 
